@@ -547,7 +547,16 @@ func replayHistory(rep *report, s *schemeOps, r *rng) {
 			}
 		}
 	}
-	for _, a := range wf {
+	// predecessors: the well-formed strings and a few rejected ones (an error path must leave nothing behind either)
+	pre := append([]loggedCall(nil), wf...)
+	rejected := 0
+	for _, c := range mine {
+		if strings.HasPrefix(c.verdict, "(V") && rejected < 6 && len(c.h) > 12 && (rejected%2 == 0) == strings.HasPrefix(c.verdict, "(VCodec") {
+			pre = append(pre, c)
+			rejected++
+		}
+	}
+	for _, a := range pre {
 		for _, b := range wf {
 			checkWatch(s, a.h, a.pw)
 			err, pan := checkWatch(s, b.h, b.pw)
